@@ -16,8 +16,8 @@ CHECKS = {
          'start/step/abandon a query) on engine A while engine B - in an arbitrary small state chosen by symbolic codes, with a query suspended after a symbolic '
          'number of answers - is observed: B\'s battery, the continuation of its suspended query and its atoms are unchanged; symbolic schedules (<=6 steps) of '
          'next() over suspended queries on one or two engines give each query the answers it has alone; on every path the mutable object graphs of the two '
-         'instances are disjoint and the engine module holds no module/class-level container (sufficient condition for the thread part).',
-    note='Pre-emptive OS-thread schedules are outside the solver\'s reach: only the sufficient condition (disjoint heaps, no module-level state) is established.',
+         'instances are disjoint and no module-/class-level container of the engine module changes (sufficient condition for the thread part).',
+    note='Pre-emptive OS-thread schedules are outside the solver\'s reach: only the sufficient condition (disjoint heaps, no module-/class-level container that changes) is established.',
     tech='symbolic execution of one-step non-interference and generator schedules (CrossHair+z3) + heap-disjointness monitor', ref='2 C04'),
  'C08': dict(
     text='Bounded symbolic execution of histories of 3 (thorough 4) operations - load of pool scripts with symbolic overwrite (incl. a load that raises), '
